@@ -167,12 +167,15 @@ def jobs_for(tier):
     # mixed dtypes: a finite float32 root may overflow the (lower precision) storage dtype -> must be caught before it is stored
     add(params=[(2, 2), (2,)], mpd=2, merge=False, pf=1, sps=1, T=2, rebase=True, mode="overflow", fixed=fixed, pdtype="float16", fdtype="float32")
     if tier == "thorough":
-        add(params=[(2,), (2,), (2,)], mpd=2, merge=False, pf=2, sps=2, T=4, rebase=True, presence="symbolic", mode="raise", fixed=fixed, maxN=2)
-        add(params=[(2, 2), (2,)], mpd=2, merge=False, pf=1, sps=1, T=3, rebase=True, presence="symbolic", mode="raise", fixed=fixed, precond="soap_eigh")
-        add(params=[(2, 2), (2,)], mpd=2, merge=False, pf=1, sps=1, T=4, rebase=True, presence="symbolic", mode="raise", fixed=fixed)
-        add(params=[(2, 2), (2,)], mpd=2, merge=False, pf=1, sps=1, T=4, rebase=True, presence="symbolic", mode="raise", fixed=fixed, precond="soap_qr")
-        add(params=[(2, 2), (2, 2)], mpd=1, merge=False, pf=1, sps=1, T=3, rebase=True, presence="symbolic", mode="raise", fixed=fixed)
-        add(params=[(2,), (2,), (2,)], mpd=2, merge=False, pf=2, sps=2, T=6, rebase=True, presence="symbolic", mode="raise", fixed=fixed, maxN=2)
+        # sized by total wall time (each of these is 10^4..10^5 paths): deeper histories with fewer symbolic dimensions each
+        add(params=[(2, 2), (2,)], mpd=2, merge=False, pf=1, sps=1, T=3, rebase=True, presence="symbolic", mode="raise", fixed=fixed, precond="soap_eigh", maxN=2)
+        add(params=[(2, 2), (2,)], mpd=2, merge=False, pf=1, sps=1, T=3, rebase=True, presence="symbolic", mode="raise", fixed=fixed, precond="soap_qr", maxN=1)
+        add(params=[(2,), (2,)], mpd=2, merge=False, pf=1, sps=1, T=4, rebase=True, presence="symbolic", mode="raise", fixed=fixed, maxN=3)
+        add(params=[(2,), (2,), (2,)], mpd=2, merge=False, pf=2, sps=2, T=4, rebase=True, presence="symbolic", mode="raise", fixed=fixed, maxN=1)
+        add(params=[(2, 2), (2,)], mpd=2, merge=False, pf=1, sps=1, T=4, rebase=True, mode="raise", fixed=fixed, maxN=3)
+        add(params=[(2,), (2,)], mpd=2, merge=False, pf=2, sps=2, T=6, rebase=True, presence="symbolic", mode="raise", fixed=fixed, maxN=2)
+        for md in ("nan", "inf", "nangrad"):
+            add(params=[(2, 2), (2,)], mpd=2, merge=False, pf=1, sps=1, T=3, rebase=True, presence="symbolic", mode=md, fixed=fixed, precond="soap_eigh")
     return jobs
 
 
@@ -184,7 +187,7 @@ def run(tier, seed, argv):
     jobs = jobs_for(tier)
     if argv:
         jobs = [j for j in jobs if j["id"] in argv]
-    rep.bounds = dict(configs=len(jobs), refreshes="<=3 (quick) / <=4 (thorough)", tolerance="symbolic integer 0..3", outcomes="symbolic success/failure per factor and refresh; NaN/Inf results; NaN gradients",
+    rep.bounds = dict(configs=len(jobs), refreshes="<=3 (quick) / <=4, one configuration 3 refreshes over 6 steps (thorough)", tolerance="symbolic integer 0..3", outcomes="symbolic success/failure per factor and refresh; NaN/Inf results; NaN gradients",
                       presence="symbolic per parameter and step (step 1: all present)", lists="Shampoo and SOAP (eigh, QR)")
     rep.assumptions = ["matrix routines replaced by recording stubs with symbolic outcome (the routines themselves: C10-C12)", "non-finite values are tensor-level markers propagated by every operation of the stand-in",
                        "weight decay, momentum and filtering switched off (they do not interact with the failure bookkeeping)"]
